@@ -141,6 +141,14 @@ func loadFindings() []finding {
 	return out
 }
 
+func init() {
+	for _, f := range loadFindings() {
+		if f.Kind == "known" {
+			cs.KnownSigs[f.Property+"/"+f.Rule+"/"+f.Sig] = true
+		}
+	}
+}
+
 func knownMatch(fs []finding, v cs.Violation) *finding {
 	for i := range fs {
 		f := &fs[i]
@@ -594,12 +602,13 @@ func TestDriver(t *testing.T) {
 	}
 	sort.Strings(keys)
 	var violLines, knownLines []string
+	knownHits := map[string]int{}
 	newViol := 0
 	minimised := 0
 	for _, k := range keys {
 		v := a.violV[k]
 		if f := knownMatch(known, v); f != nil {
-			knownLines = append(knownLines, fmt.Sprintf("KNOWN-FINDING: property=%s %s (rule=%s signature=%s, %d runs)", prop, f.What, v.Rule, v.Sig, len(a.viol[k])))
+			knownHits[f.Rule+"/"+f.Sig] = len(a.viol[k])
 			continue
 		}
 		newViol++
@@ -656,6 +665,11 @@ func TestDriver(t *testing.T) {
 		fmt.Printf("  rule=%s sig=%s runs=%d: %s\n", fv.Rule, fv.Sig, len(runs), fv.Msg)
 	}
 
+	for _, f := range known {
+		if f.Kind == "known" && f.Property == prop {
+			knownLines = append(knownLines, fmt.Sprintf("KNOWN-FINDING: property=%s %s [rule=%s signature=%s; reproduced in %d runs of this batch]", prop, f.What, f.Rule, f.Sig, knownHits[f.Rule+"/"+f.Sig]))
+		}
+	}
 	wall := time.Since(start).Seconds()
 	hours := wall / 3600
 	cov := map[string]any{
